@@ -188,6 +188,58 @@ def perturb(rng: random.Random, W, eps):
     return ["interp", W[1], [p(x) for x in W[2]], W[3]] + list(W[4:])
 
 
+def perturb_one(rng: random.Random, W, eps):
+    """change a single defining number by the relative amount eps"""
+    def p(x):
+        return x * (1 + eps) + (eps * 1e-3 if x == 0 else 0.0)
+
+    k = W[0]
+    W2 = list(W)
+    if k == "const":
+        W2[2] = p(W[2])
+    elif k == "ramp":
+        i = rng.choice([2, 3])
+        W2[i] = p(W[i])
+    elif k in ("custom", "interp"):
+        idx = 1 if k == "custom" else 2
+        l = list(W[idx])
+        if l:
+            j = rng.randrange(len(l))
+            l[j] = p(l[j])
+        W2[idx] = l
+    elif k == "comp":
+        l = list(W[1])
+        if l:
+            j = rng.randrange(len(l))
+            l[j] = perturb_one(rng, l[j], eps)
+        W2[1] = l
+    else:
+        W2[2] = p(W[2])
+    return W2
+
+
+def gen_cancelling(rng: random.Random):
+    """waveforms whose samples change sign so that the integral (nearly)
+    cancels: near-equal partners then have close samples but integrals that
+    are not 'close' to each other"""
+    c = rng.randint(0, 3)
+    x = rng.choice([1.0, 40.0, 500.0, 1000.0, rng.uniform(0.5, 2000.0)])
+    if c == 0:
+        n = rng.choice([1, 2, 3, 8, 25])
+        vals = []
+        for _ in range(n):
+            vals += [x, -x]
+        rng.shuffle(vals)
+        return ["custom", vals]
+    if c == 1:
+        return ["ramp", rng.choice([2, 3, 11, 101, 128]), -x, x]
+    if c == 2:
+        d = rng.choice([1, 5, 20, 64])
+        return ["comp", [["const", d, x], ["const", d, -x]]]
+    d = rng.choice([3, 9, 33])
+    return ["comp", [["blackman", d, x * 1e-2], ["blackman", d, -x * 1e-2]]]
+
+
 def wdur(W) -> int:
     k = W[0]
     if k == "custom":
@@ -221,7 +273,8 @@ def gen_ops(rng: random.Random, W):
     if c < 0.25:
         other = W
     elif c < 0.75:
-        other = perturb(rng, W, rng.choice([1e-12, 1e-9, 1e-7, 5e-6, 9e-6, 1.1e-5, 2e-5, 1e-3, -1e-6]))
+        eps = rng.choice([1e-12, 1e-9, 1e-7, 4e-6, 5e-6, 9e-6, 1.1e-5, 2e-5, 1e-3, -1e-6, -4e-6])
+        other = perturb(rng, W, eps) if rng.random() < 0.5 else perturb_one(rng, W, eps)
     elif c < 0.9:
         other = gen_wf(rng, d=d, classes=["const", "ramp", "custom", "blackman"])
     else:
@@ -302,7 +355,7 @@ class C16(PropCheck):
         c = rng.random()
         if c < 0.52:
             mal = rng.random() < 0.12
-            W = gen_wf(rng, malformed=mal)
+            W = gen_wf(rng, malformed=mal) if rng.random() > 0.08 else gen_cancelling(rng)
             return dict(kind="wf", wf=W, ops=gen_ops(rng, W))
         if c < 0.66:
             d = rdur(rng, 130)
